@@ -5,11 +5,11 @@ A refactoring written against an older commit that no longer applies to HEAD (la
 commit it was written for: the checks run against that base commit and against base + patch, and the patched tree may not produce any violation key (or
 crash) that the base does not produce as well (the base lacks later fixes, so it legitimately violates some properties - identically with and without a
 behaviour-preserving patch).
-usage: python tools/benign_check.py [--only NAME ...] [--checks C01 ...]"""
+usage: python tools/benign_check.py [--only NAME ...] [--checks C01 ...] [--jobs N] [--skip-done]"""
 import argparse, glob, json, os, re, shutil, subprocess, sys
 VERIF = os.path.dirname(os.path.dirname(os.path.abspath(__file__)))
 ALL = ['C%02d' % i for i in range(1, 21)]
-ap = argparse.ArgumentParser(); ap.add_argument('--only', nargs='*'); ap.add_argument('--checks', nargs='*', default=ALL); a = ap.parse_args()
+ap = argparse.ArgumentParser(); ap.add_argument('--only', nargs='*'); ap.add_argument('--checks', nargs='*', default=ALL); ap.add_argument('--jobs', type=int, default=1); ap.add_argument('--skip-done', action='store_true'); a = ap.parse_args()
 RES = os.path.join(VERIF, 'seeded', 'benign', 'result.json')
 results = json.load(open(RES)) if os.path.exists(RES) else {}
 baselines = results.setdefault('_baselines', {})        # {commit: {check: [keys]}}: what the checks of this /verif say about an older commit of /repo
@@ -41,56 +41,81 @@ def drop(path):
 
 
 def run_check(c, wt):
-    env = dict(os.environ, VERIF_REPO=wt, VERIF_OUT=wt + '.out', VERIF_SEED='2')
+    env = dict(os.environ, VERIF_REPO=wt, VERIF_OUT=wt + '.out', VERIF_SEED='2', VERIF_WORKERS=str(max(4, 16 // a.jobs + 2)))
     p = subprocess.run(['/venv/bin/python', '-m', 'mc.run', c, '--tier', 'quick'], cwd=VERIF, env=env, capture_output=True, text=True)
     keys = sorted(set(re.findall(r'^\s+key=(\S+)', p.stdout, re.M)))
     return p, keys
 
 
 verif_rev = subprocess.run(['git', '-C', VERIF, 'rev-parse', 'HEAD'], capture_output=True, text=True).stdout.strip()
-for diff in sorted(glob.glob(os.path.join(VERIF, 'seeded', 'benign', '*.diff'))):
-    name = os.path.basename(diff)[:-5]
-    if a.only and name not in a.only:
-        continue
-    wt = '/tmp/bn_' + name
-    head = git('rev-parse', 'HEAD').stdout.strip()
-    base = head if git('apply', '--check', diff).returncode == 0 else base_commit(diff)
-    if base is None:
-        results[name] = dict(error='patch applies neither to HEAD nor to any commit of /repo'); continue
-    try:
-        if base != head:
-            # what do the checks say about the base commit itself?  (cached per base commit and /verif revision)
-            bl = baselines.setdefault(base, {})
-            if bl.get('_verif') != verif_rev:
-                bl.clear(); bl['_verif'] = verif_rev
-            todo = [c for c in a.checks if c not in bl]
-            if todo:
-                worktree(wt + '_base', base)
+import concurrent.futures, threading
+LOCK = threading.Lock()
+HEAD = git('rev-parse', 'HEAD').stdout.strip()
+
+
+def baseline(base, checks, tag):
+    """what do the checks of this /verif say about the base commit itself?  (cached per base commit and /verif revision; one thread at a time per base)"""
+    with LOCK:
+        bl = baselines.setdefault(base, {})
+        if bl.get('_verif') != verif_rev:
+            bl.clear(); bl['_verif'] = verif_rev
+        lock = BASE_LOCKS.setdefault(base, threading.Lock())
+    with lock:
+        todo = [c for c in checks if c not in bl]
+        if todo:
+            wt = '/tmp/bn_base_' + base[:8]
+            worktree(wt, base)
+            try:
                 for c in todo:
-                    p, keys = run_check(c, wt + '_base')
+                    p, keys = run_check(c, wt)
                     bl[c] = dict(exit=p.returncode, keys=keys)
-                drop(wt + '_base')
+            finally:
+                drop(wt)
+            with LOCK:
+                json.dump(results, open(RES, 'w'), indent=1)
+    return bl
+
+
+BASE_LOCKS = {}
+
+
+def judge(diff):
+    name = os.path.basename(diff)[:-5]
+    wt = '/tmp/bn_' + name
+    base = HEAD if git('apply', '--check', diff).returncode == 0 else base_commit(diff)
+    if base is None:
+        return name, dict(error='patch applies neither to HEAD nor to any commit of /repo')
+    try:
+        bl = baseline(base, a.checks, name) if base != HEAD else None
         worktree(wt, base)
         ap_ = git('apply', diff, cwd=wt)
         if ap_.returncode:
-            results[name] = dict(error='apply: ' + ap_.stderr[-200:]); continue
+            return name, dict(error='apply: ' + ap_.stderr[-200:])
         t = subprocess.run(['/venv/bin/python', '-m', 'pytest', '-q', '-p', 'no:cacheprovider', '-x'], cwd=wt, capture_output=True, text=True)
-        res = dict(tests_pass=t.returncode == 0, alarms={}, judged_on=base[:7] + (' (HEAD)' if base == head else ' (differential: the commit the patch was written for)'))
+        res = dict(tests_pass=t.returncode == 0, alarms={}, judged_on=base[:7] + (' (HEAD)' if base == HEAD else ' (differential: the commit the patch was written for)'))
         for c in a.checks:
             p, keys = run_check(c, wt)
-            if base == head:
+            if base == HEAD:
                 bad = p.returncode != 0
                 new = keys
             else:
-                b = baselines[base][c]
+                b = bl[c]
                 new = [k for k in keys if k not in b['keys']]
                 bad = bool(new) or (p.returncode == 2 and b['exit'] != 2)
             if bad:
                 res['alarms'][c] = dict(exit=p.returncode, new_keys=new[:8], lines=[l[:300] for l in p.stdout.splitlines() if l.strip().startswith('key=') and any(k in l for k in new)][:6],
                                         tail=(p.stdout + p.stderr)[-400:] if p.returncode == 2 else '')
-        results[name] = res
         print(name, 'on', res['judged_on'], 'tests_pass=%s' % res['tests_pass'], 'ALARMS: %s' % sorted(res['alarms']) if res['alarms'] else 'silent on %d checks' % len(a.checks), flush=True)
+        return name, res
     finally:
-        drop(wt); drop(wt + '_base')
-        json.dump(results, open(RES, 'w'), indent=1)
+        drop(wt)
+
+
+todo = [d for d in sorted(glob.glob(os.path.join(VERIF, 'seeded', 'benign', '*.diff')))
+        if (not a.only or os.path.basename(d)[:-5] in a.only) and not (a.skip_done and os.path.basename(d)[:-5] in results and not results[os.path.basename(d)[:-5]].get('error'))]
+with concurrent.futures.ThreadPoolExecutor(max_workers=a.jobs) as ex:
+    for name, res in ex.map(judge, todo):
+        with LOCK:
+            results[name] = res
+            json.dump(results, open(RES, 'w'), indent=1)
 sys.exit(1 if any(r.get('alarms') or r.get('error') for k, r in results.items() if not k.startswith('_')) else 0)   # B1 changes an expansion the repo's tests pin, so tests_pass is only recorded
